@@ -254,6 +254,9 @@ pub fn worker(w: &mut Worker) {
             }
         }
     }
+    // from here on single cases are large (many lines, long lines, thousands of arguments): a case that
+    // kills the process (stack overflow) is pinned to itself and reported
+    w.risky = true;
     // very many lines: instruction count and line numbers far down, a malformed line in the middle and
     // at the very end
     for n in tier.pick(vec![20_000usize], vec![20_000usize, 1_000_000]) {
@@ -303,6 +306,33 @@ pub fn worker(w: &mut Worker) {
             run_text(w, &text, &pl, "long-line");
         }
     }
+    // a line with very many arguments (the length of a line is one thing, the number of its arguments another)
+    for n in tier.pick(vec![20_000usize, 200_000], vec![20_000usize, 200_000, 2_000_000]) {
+        for bad in [false, true] {
+            if !w.take() {
+                continue;
+            }
+            let mut line = String::from("cmd");
+            for i in 0..n {
+                line.push_str(if i % 3 == 0 { " \"a b\"" } else { " a" });
+            }
+            if bad {
+                line.push_str(" \"unterminated");
+            }
+            let text = format!("x = set 1\n{}\ny = set 2", line);
+            let cj = json!({"kind": "many-arguments", "arguments": n, "unterminated": bad});
+            w.begin(|| cj.clone());
+            let pl: Vec<(usize, &'static str)> = if bad { vec![(2, "MissingEndQuotes")] } else { vec![] };
+            match check_text(&text, &pl) {
+                Ok((_, oc)) => w.pass(true, oc),
+                Err((sig, what)) => {
+                    let short: String = what.chars().take(200).collect();
+                    w.fail(&format!("many-arguments:{}", sig), &format!("line with {} arguments: {}", n, short), cj)
+                }
+            }
+        }
+    }
+    w.risky = false;
     // (b) token sequences
     let tl = tier.pick(4usize, 5usize);
     for seq in Strings::new(&TOKENS[..], 0, tl) {
@@ -345,6 +375,9 @@ fn many_lines(n: usize, bad: Option<(usize, usize)>) -> (String, Vec<(usize, &'s
 }
 
 pub fn replay(case: &Value) -> Result<String, String> {
+    if case["kind"].as_str() == Some("many-arguments") {
+        return Ok("re-run the check: the line is rebuilt from the number of arguments by the generator (a failing case kills the process)".to_string());
+    }
     if case["kind"].as_str() == Some("many-lines") {
         let n = case["lines"].as_u64().unwrap_or(1) as usize;
         let bad = case["bad"].as_array().map(|a| (a[0].as_u64().unwrap_or(1) as usize, a[1].as_u64().unwrap_or(0) as usize));
@@ -372,7 +405,7 @@ pub fn crash_sig(_case: &Value, kind: &str) -> String {
     kind.to_string()
 }
 
-pub const RULE: &str = "enumeration (no duplicates within a phase): planted malformed line (6 kinds x 4-5 spellings) at every position among every choice of well-formed lines (pool of 10), LF and CRLF; pairs of malformed lines; the escape table (a backslash, and a backslash-dollar, followed by each of 18 characters in 6 argument positions (four on command lines, two on pre-processor lines), in the middle of an argument / at the end of the line / before trailing white space / before a comment / before the closing quote, alone and behind an earlier well-formed escape (\\${v}, \\n, \\\\) of the same argument, at every line position: only the documented escapes parse, all others are rejected with ControlWithoutValidValue); every sequence of tokens from a pool of 14; lines of 10^4 and 10^5 repeated characters of each class; texts of 20000 (thorough 10^6) lines, well-formed and with a malformed line in the middle / at the end; every text up to the length bound over {a SP \" \\ # = : ! $ { LF CR} (+TAB, e-acute). Oracle: no panic; Ok => one instruction per line with line numbers 1..n, no source tag, blank/comment lines Empty, each line parses alone to the same instruction; Err(kind,k) => 1<=k<=n and line k alone is rejected with the same kind; planted error => that kind and line. Non-trivial: the text contains one of \" \\ # = : !; states = distinct (verdict, error kind, error line, line count) classes, transitions = parse_text calls on whole texts";
+pub const RULE: &str = "enumeration (no duplicates within a phase): planted malformed line (6 kinds x 4-5 spellings) at every position among every choice of well-formed lines (pool of 10), LF and CRLF; pairs of malformed lines; the escape table (a backslash, and a backslash-dollar, followed by each of 18 characters in 6 argument positions (four on command lines, two on pre-processor lines), in the middle of an argument / at the end of the line / before trailing white space / before a comment / before the closing quote, alone and behind an earlier well-formed escape (\\${v}, \\n, \\\\) of the same argument, at every line position: only the documented escapes parse, all others are rejected with ControlWithoutValidValue); every sequence of tokens from a pool of 14; lines of 10^4 and 10^5 repeated characters of each class; a line with 20000 / 200000 (thorough 2000000) arguments, well-formed and ending in an unterminated quote; texts of 20000 (thorough 10^6) lines, well-formed and with a malformed line in the middle / at the end; every text up to the length bound over {a SP \" \\ # = : ! $ { LF CR} (+TAB, e-acute). Oracle: no panic; Ok => one instruction per line with line numbers 1..n, no source tag, blank/comment lines Empty, each line parses alone to the same instruction; Err(kind,k) => 1<=k<=n and line k alone is rejected with the same kind; planted error => that kind and line. Non-trivial: the text contains one of \" \\ # = : !; states = distinct (verdict, error kind, error line, line count) classes, transitions = parse_text calls on whole texts";
 pub const ASSUMPTIONS: &[&str] = &["no !include_files directive in the texts (C14 covers includes)"];
 pub const EXHAUSTIVE: bool = true;
 pub const WALL_CAP_S: (u64, u64) = (50, 1500);
